@@ -104,6 +104,7 @@ func (fr *Frame) doCall(instr ssa.Instruction, c *ssa.CallCommon, fnv Value, arg
 	}
 	callee, bind := fr.resolveCallee(c, fnv)
 	sig := c.Signature()
+	fr.atCallAsserts(c, callee, pc, st, pos)
 	allArgs := args
 	if c.IsInvoke() {
 		allArgs = append([]Value{fnv}, args...)
@@ -465,6 +466,11 @@ func (fr *Frame) applyContract(ct *Contract, callee *ssa.Function, sig *types.Si
 	}
 	// 3. havoc frame
 	if !ct.Pure {
+		if callee != nil && inRepo(callee) {
+			if gm := x.W.ghostMods(callee); len(gm) > 0 {
+				x.havocNames(st, gm)
+			}
+		}
 		if ct.HasMod {
 			fr.havocModifies(ct.Modifies, env, st, pc)
 			if contains(ct.Modifies, "*") && callee != nil && inRepo(callee) {
@@ -479,6 +485,13 @@ func (fr *Frame) applyContract(ct *Contract, callee *ssa.Function, sig *types.Si
 		}
 		// an extern contract without a modifies clause declares the function
 		// to leave the program's heap alone (externals.spec header)
+	}
+	for _, tn := range ct.Touches {
+		for i, n := range names {
+			if n == tn {
+				x.havocGhostOf(st, args[i])
+			}
+		}
 	}
 	for _, pm := range ct.Permutes {
 		for i, n := range names {
@@ -507,6 +520,31 @@ func (fr *Frame) applyContract(ct *Contract, callee *ssa.Function, sig *types.Si
 	}
 	fr.setResult(res, vals)
 	x.recordEvent(pc, cname, vals, args)
+	if ct.Fresh && len(vals) > 0 {
+		var r *Term
+		switch vals[0].T.Underlying().(type) {
+		case *types.Pointer, *types.Map:
+			r = vals[0].L[0]
+		case *types.Interface:
+			r = vals[0].L[1]
+		}
+		if r != nil {
+			for _, o := range x.freshRefs {
+				x.assumeGlobal(x.B.Neq(r, o), "fresh refs distinct")
+			}
+			for _, o := range x.paramRefs {
+				x.assumeGlobal(x.B.Neq(r, o), "fresh ref distinct from parameter")
+			}
+			x.freshRefs = append(x.freshRefs, r)
+			fr.distinctFromLive(r)
+			x.unescaped[r] = true
+		}
+	}
+	if callee != nil && inRepo(callee) {
+		for _, a := range args {
+			x.markEscaped(a)
+		}
+	}
 	// 5. ensures
 	post := x.envForFunc(callee, sig, names, args, st, pre)
 	post.pkg = env.pkg
@@ -846,6 +884,22 @@ func (fr *Frame) unknownCall(c *ssa.CallCommon, callee *ssa.Function, args []Val
 		}
 	}
 	// memory
+	if callee == nil || inRepo(callee) {
+		for _, a := range args {
+			x.markEscaped(a)
+		}
+	}
+	if callee != nil && inRepo(callee) {
+		if gm := x.W.ghostMods(callee); len(gm) > 0 {
+			x.havocNames(st, gm)
+		}
+	} else if callee == nil {
+		for _, cand := range x.W.possibleCallees(c) {
+			if gm := x.W.ghostMods(cand); len(gm) > 0 {
+				x.havocNames(st, gm)
+			}
+		}
+	}
 	if callee != nil && inRepo(callee) {
 		fr.applyModSet(x.W.fnModSet(callee), st, args)
 	} else if callee == nil {
@@ -860,6 +914,13 @@ func (fr *Frame) unknownCall(c *ssa.CallCommon, callee *ssa.Function, args []Val
 	for _, a := range args {
 		if _, ok := a.T.Underlying().(*types.Signature); ok {
 			fr.runCallback(a, pc, st, pos)
+		}
+	}
+	// per-object ghost state (bytes written to a writer, ...) of every object
+	// handed to code we know nothing about becomes unknown
+	if callee == nil || !inRepo(callee) {
+		for _, a := range args {
+			x.havocGhostOf(st, a)
 		}
 	}
 	var vals []Value
@@ -1016,6 +1077,10 @@ func (fr *Frame) frameCheckName(name string, ref *Term, pc *Term, pos string) {
 		return
 	}
 	if ref != nil && x.isFresh[ref] {
+		return
+	}
+	if strings.HasPrefix(name, "ghost:") {
+		// ghost state is framed by the body-derived ghost mod-sets, not by contracts
 		return
 	}
 	for _, m := range x.rootModifies {
@@ -1317,6 +1382,28 @@ func (w *World) computeModSets() {
 					}
 					for _, callee := range w.possibleCallees(c) {
 						edges[fn] = append(edges[fn], edge{callee, nil})
+					}
+					if sc := c.StaticCallee(); sc != nil && !inRepo(sc) {
+						if ct, ok := w.Specs.Contracts[externName(sc)]; ok && ct.HasMod {
+							for _, n := range ct.Modifies {
+								switch {
+								case strings.HasPrefix(n, "ghost."):
+									ms.names["ghost:"+strings.TrimPrefix(n, "ghost.")] = true
+								case len(n) > 2 && n[1] == ':':
+									ms.names[n] = true
+								}
+							}
+						}
+					}
+					if c.IsInvoke() {
+						key := "(" + types.TypeString(types.Unalias(c.Value.Type()), nil) + ")." + c.Method.Name()
+						if ct, ok := w.Specs.Contracts[key]; ok && ct.HasMod {
+							for _, n := range ct.Modifies {
+								if strings.HasPrefix(n, "ghost.") {
+									ms.names["ghost:"+strings.TrimPrefix(n, "ghost.")] = true
+								}
+							}
+						}
 					}
 					// external callees may write into slices/pointers passed
 					if sc := c.StaticCallee(); sc == nil || !inRepo(sc) {
@@ -1754,4 +1841,164 @@ func (x *X) recordEvent(pc *Term, name string, vals []Value, args []Value) {
 		}
 	}
 	x.events = append(x.events, ev)
+}
+
+// atCallAsserts checks "at <callee>: assert e" clauses of the function under
+// analysis (root frame only) right before the call.
+func (fr *Frame) atCallAsserts(c *ssa.CallCommon, callee *ssa.Function, pc *Term, st *State, pos string) {
+	x := fr.x
+	if !fr.isRoot || fr.contract == nil || !x.mode.Functional || len(fr.contract.AtCalls) == 0 {
+		return
+	}
+	var names []string
+	if callee != nil {
+		names = append(names, shortFuncName(callee), externName(callee))
+	}
+	if c.IsInvoke() {
+		names = append(names, "("+types.TypeString(types.Unalias(c.Value.Type()), nil)+")."+c.Method.Name())
+	}
+	for _, cl := range fr.contract.AtCalls {
+		if !x.active(cl) || !contains(names, cl.Names[0]) {
+			continue
+		}
+		env := fr.rootEnv(st)
+		env.lookup = func(name string) (SV, bool) { return fr.resolveLocalAt(name, st) }
+		var t *Term
+		if err := safeEval(func() { t = env.Bool(cl.Expr) }); err != nil {
+			panic(stopExec{fmt.Sprintf("%s: at %s: assert %q: %v", shortFuncName(fr.fn), cl.Names[0], cl.Src, err)})
+		}
+		lbl := cl.Label
+		if lbl == "" {
+			lbl = truncate(cl.Src, 40)
+		}
+		o := x.oblige("assert", shortName(cl.Names[0])+":"+lbl, pos, pc, t)
+		o.Extra = map[string]string{"assert": cl.Src}
+	}
+}
+
+// resolveLocalAt: value of a source variable at the current block: the
+// latest DebugRef whose block dominates the current one (or is the current
+// block and already executed), or an address-taken local.
+func (fr *Frame) resolveLocalAt(name string, st *State) (SV, bool) {
+	x := fr.x
+	if as := fr.allocs[name]; len(as) > 0 {
+		for _, a := range as {
+			if pv, ok := fr.vals[a]; ok {
+				l := x.locOf(pv.One(), a.Type().(*types.Pointer).Elem())
+				if l.Kind == LCell {
+					if v, ok := st.cells[l.Cell]; ok {
+						return svValue(v), true
+					}
+				} else {
+					return svValue(x.load(st, l, a.Type().(*types.Pointer).Elem())), true
+				}
+			}
+		}
+	}
+	var best *dbgRef
+	for i := range fr.dbg[name] {
+		d := &fr.dbg[name][i]
+		if _, ok := fr.vals[d.instr.X]; !ok {
+			if _, isConst := d.instr.X.(*ssa.Const); !isConst {
+				continue
+			}
+		}
+		if fr.curBlock != nil && d.block != fr.curBlock && !d.block.Dominates(fr.curBlock) {
+			continue
+		}
+		if best == nil || best.block.Dominates(d.block) {
+			best = d
+		}
+	}
+	if best != nil {
+		return svValue(fr.val(best.instr.X)), true
+	}
+	return SV{}, false
+}
+
+// havocGhostOf forgets the array-shaped ghost state at the object a denotes
+// (pointer value, or the data word of an interface).
+func (x *X) havocGhostOf(st *State, a Value) {
+	var key *Term
+	switch a.T.Underlying().(type) {
+	case *types.Pointer:
+		key = a.L[0]
+	case *types.Interface:
+		key = a.L[1]
+	default:
+		return
+	}
+	for name, g := range x.W.Specs.Ghosts {
+		srt := (&Env{x: x}).sortByName(g.Sort)
+		if srt.Kind != SArray || srt.K != IntSort {
+			continue
+		}
+		cur := x.heapRead(st, "ghost:"+name, srt)
+		x.heapSet(st, "ghost:"+name, x.B.Store(cur, key, x.B.Fresh("gh_"+name, srt.V)))
+	}
+}
+
+// ghostMods: ghost variables a function may change, derived from the bodies
+// (extern contracts' modifies clauses), independent of in-repo contracts.
+func (w *World) ghostMods(fn *ssa.Function) []string {
+	if w.ghostModSets == nil {
+		w.ghostModSets = map[*ssa.Function]map[string]bool{}
+		edges := map[*ssa.Function][]*ssa.Function{}
+		for _, f := range w.Funcs {
+			gm := map[string]bool{}
+			w.ghostModSets[f] = gm
+			for _, b := range f.Blocks {
+				for _, in := range b.Instrs {
+					if mc, ok := in.(*ssa.MakeClosure); ok {
+						edges[f] = append(edges[f], mc.Fn.(*ssa.Function))
+					}
+					ci, ok := in.(ssa.CallInstruction)
+					if !ok {
+						continue
+					}
+					c := ci.Common()
+					var ct *Contract
+					if sc := c.StaticCallee(); sc != nil && !inRepo(sc) {
+						ct = w.Specs.Contracts[externName(sc)]
+					} else if c.IsInvoke() {
+						ct = w.Specs.Contracts["("+types.TypeString(types.Unalias(c.Value.Type()), nil)+")."+c.Method.Name()]
+					}
+					if ct != nil {
+						for _, n := range ct.Modifies {
+							if strings.HasPrefix(n, "ghost.") {
+								gm["ghost:"+strings.TrimPrefix(n, "ghost.")] = true
+							}
+						}
+						if len(ct.Touches) > 0 {
+							for g := range w.Specs.Ghosts {
+								gm["ghost:"+g] = true
+							}
+						}
+					}
+					for _, callee := range w.possibleCallees(c) {
+						edges[f] = append(edges[f], callee)
+					}
+				}
+			}
+		}
+		for changed := true; changed; {
+			changed = false
+			for f, cs := range edges {
+				for _, c := range cs {
+					for n := range w.ghostModSets[c] {
+						if !w.ghostModSets[f][n] {
+							w.ghostModSets[f][n] = true
+							changed = true
+						}
+					}
+				}
+			}
+		}
+	}
+	var out []string
+	for n := range w.ghostModSets[fn] {
+		out = append(out, n)
+	}
+	sort.Strings(out)
+	return out
 }
